@@ -507,7 +507,12 @@ class Bot:
             self._last_activity_time = time.time()
             while not self._is_ringing:
                 time.sleep(0.01)
-                if self._server_mode and time.time() > self._last_activity_time + INACTIVITY_EXIT_TIME:
+                # (don't time out if 'Look To' arrived during this last sleep: `_is_ringing` is already set)
+                if (
+                    self._server_mode
+                    and not self._is_ringing
+                    and time.time() > self._last_activity_time + INACTIVITY_EXIT_TIME
+                ):
                     self.logger.info(f"Timed out - no activity for {INACTIVITY_EXIT_TIME}s. Exiting.")
                     return
 
